@@ -180,6 +180,15 @@ def step (s : St) (fs : List String) : St × String :=
       | .error e => (s, answer (showErr e) l none)
       | .ok vs => (s, answer (encStrList vs) l none)
     | none => (s, "bad-op")
+  | ["sortsubj", k, dom, g] =>
+    match optNat dom, decRules g with
+    | some dom, some g =>
+      let l := get s.pol k
+      match sortBySubjectHierarchy dom g l with
+      | .ok l' => ({ pol := put s.pol k l', arr := put s.arr k l' }, answer "-" l' none)
+      | .error .cycle => (s, answer "!cycle" l none)
+      | .error .fuel => (s, answer "!fuel" l none)
+    | _, _ => (s, "bad-op")
   | ["sortprio", k, pi] =>
     match pi.toNat? with
     | some pi =>
